@@ -74,3 +74,13 @@ claim("C06", "other", "finite sign-domain evaluation of the choice functions + t
       "Decides the structural clauses of range visits: the delivering sets of the two choice functions over the three signs of compare(target,key) and their near/far subtrees (V1), the in-order skeleton with early stop on every path of the recursive visitor (V2), the delivered item read with the caller's value mode from the node being visited (V3), depth = recursion depth (V4), wrapper/iterator transparency in the right direction (V5) and the transparent order guard (V6). Together with the search-tree order of C13 this gives 'exactly the requested range, in order'; the delivered sequence as data over all contents and cache states is not decided.",
       "Trusted: go/ssa; comparator is a strict weak order; C13 for tree order.",
       "DESIGN.md §4 C06")
+
+claim("C17", "other", "who-may-touch rule on Item.Val, nil-guard dominance on every StoreCallbacks call, allocation-site rule, hook-result dataflow, comparator-default rule, symbolic size agreement",
+      "Decides the structural reasons a behaviourally neutral callback cannot change a result: value bytes/length are touched only in the three dispatch wrappers (K1); every callback call is nil-guarded with a default path (K2); items come from ItemAlloc (K3); only the hooks' results are used after them (K4); every collection comparator is defaulted, copied or the load-time callback's result with nil replaced by bytes.Compare (K5); aggregate sizes use the same dispatched length as the encoder (K6, with C14 Y6). Identity of all results under every subset of callbacks over all histories is not decided.",
+      "Trusted: go/ssa; callbacks are behaviourally neutral as the property defines.",
+      "DESIGN.md §4 C17")
+
+claim("C11", "other", "receiver-provenance who-may-call (source untouched), must-flush-before-success path rule, shape checks of the copy loop, error flow",
+      "Decides: CopyTo touches its source only through functions that neither write the file nor publish (A-src); with flushEvery > 0 every success return follows a destination Flush with nothing written after it, and a Flush follows the copy loop (CP1); every source collection, empty ones included, is created on the new store with the same name and comparator (CP2); items are read with values from the smallest key on and the visited item itself is set into the destination, the copy visitor stopping only on a recorded error (CP3); every error in CopyTo propagates (E1c). Equivalence of contents, compaction and in-copy eviction effects are not decided.",
+      "Trusted: go/ssa.",
+      "DESIGN.md §4 C11")
